@@ -12,6 +12,7 @@ fn watchdog(secs: u64) {
     std::thread::spawn(move || {
         std::thread::sleep(std::time::Duration::from_secs(secs));
         eprintln!("INCONCLUSIVE: harness watchdog fired after {} s", secs);
+        ovf::sys::cluster::kill_all();
         std::process::exit(2);
     });
 }
